@@ -1,4 +1,5 @@
 import DustVerif.Model.Tree
+import DustVerif.Model.TreeOld
 import DustVerif.Driver.Util
 /-! Line-protocol driver of the `tree` engine: the subset of the dsim scenario language (notes/dsim.md) whose
     return codes and handles the model `Model/Tree.lean` predicts. Anything else answers `bad-op`. -/
@@ -22,8 +23,12 @@ def NBUCKETS : Nat := 4096
 structure DSt where
   m : St
   names : Names
+  /-- run the code as it was BEFORE fixes/D40, D-tree-1, D-tree-2 (`Model/TreeOld.lean`); switched by `#model old` -/
+  old : Bool
 
-def defaultSt : DSt := { m := St.init .debug, names := Array.replicate NBUCKETS [] }
+def defaultSt : DSt := { m := St.init .debug, names := Array.replicate NBUCKETS [], old := false }
+
+def mstep (d : DSt) (op : Op) : St × Res := if d.old then stepOld d.m op else DustVerif.Tree.step d.m op
 
 def bucketOf (n : String) : Nat := n.hash.toNat % NBUCKETS
 
@@ -115,13 +120,13 @@ def tyKeyed : String → Option Bool
 
 /-- run a model op, bind `name` to `mk handle` when a handle comes back -/
 def creation (d : DSt) (name : String) (op : Op) (mk : Handle → Obj) : DSt × String :=
-  let (m', r) := step d.m op
+  let (m', r) := mstep d op
   match r with
-  | .handle h => ({ m := m', names := bind d name (mk h) }, showRes true r)
+  | .handle h => ({ d with m := m', names := bind d name (mk h) }, showRes true r)
   | _ => ({ d with m := m' }, showRes true r)
 
 def plainOp (d : DSt) (op : Op) (keyed : Bool := true) : DSt × String :=
-  let (m', r) := step d.m op
+  let (m', r) := mstep d op
   ({ d with m := m' }, showRes keyed r)
 
 def groupOfWriter (w : EndRef) : GroupRef := { ph := w.ph, b := w.b }
@@ -177,9 +182,9 @@ def prim (d : DSt) (ts : List String) : DSt × String :=
   | "cft" :: name :: parent :: topic :: cname :: _params :: _ :: _ =>
     match lookupName d parent, lookupName d topic with
     | some (.part _), some (.topic r _) =>
-      let (m', res) := step d.m (.createCft r cname)
+      let (m', res) := mstep d (.createCft r cname)
       match res with
-      | .ok => ({ m := m', names := bind d name (.cft cname r) }, "ok")
+      | .ok => ({ d with m := m', names := bind d name (.cft cname r) }, "ok")
       | _ => ({ d with m := m' }, showRes true res)
     | _, _ => (d, "bad-op")
   | "writer" :: rest =>
@@ -311,7 +316,10 @@ def step (d : DSt) (line : String) : DSt × String :=
             let (d', os) := runRepeat d bodies 0 n
             (d', String.intercalate ";" os)
         | none => (d, "bad-op")
-      -- `#profile release|debug`: a comment for the harness (which is whatever build it is), a switch for the model
+      -- `#model old|fixed`, `#profile release|debug`: comments for the harness (which is whatever build of whatever
+      -- tree it is), switches for the model: the code before / after the patches, wrapping / checked arithmetic
+      | ["#model", "old"] => ({ d with old := true }, "ok")
+      | ["#model", "fixed"] => ({ d with old := false }, "ok")
       | ["#profile", "release"] => ({ d with m := { d.m with profile := .release } }, "ok")
       | ["#profile", "debug"] => ({ d with m := { d.m with profile := .debug } }, "ok")
       | t :: _ => if t.startsWith "#" then (d, "ok") else prim d ts
